@@ -218,7 +218,7 @@ fn main() {
         let rules: Vec<RuleJ> = rf.rules.choose_multiple(&mut rng, k).cloned().collect();
         let rule_names: Vec<String> = rules.iter().map(|r| r.name.clone()).collect();
         let iter_limit = rng.gen_range(0..=3usize);
-        let node_limit = *[30usize, 80, 200, 10_000].choose(&mut rng).unwrap();
+        let node_limit = *[30usize, 80, 200, 400].choose(&mut rng).unwrap();
         let hook_fail_at: Option<usize> = if rng.gen_bool(0.2) { Some(rng.gen_range(0..3)) } else { None };
         let extraction_subst = rng.gen_bool(0.5);
         let st = start_txt.clone();
